@@ -191,3 +191,33 @@ Definition lex_member (g : list (N * N)) (m : member) : list res :=
   flat_map (fun p : N * N * annot => lex_annot g1 (snd p)) (mb_params m) ++
   lex_annot g1 (mb_ret m) ++
   match mb_body m with Some b => lex_expr (bind (param_binders (mb_params m)) g1) b | None => [] end.
+
+(* ---- toplevels and the module ---- *)
+Definition lex_typedef (g : list (N * N)) (d : typedef) : list res :=
+  match d with
+  | TDStruct fs => flat_map (fun f : N * N * annot => lex_annot g (snd f)) fs
+  | TDEnum vs => flat_map (fun v : N * N * annots => lex_annots g (snd v)) vs
+  end.
+
+(* what a method is visited under, on top of the module's names: `this` (classes only) and the class's type parameters *)
+Definition instance_binders (this : N) (t : toplevel) : list (N * N) :=
+  (if tl_class t then [(this, tl_loc t)] else []) ++ tparam_binders (tl_tparams t).
+
+(* a toplevel in the environment g of the module's imported and toplevel names:
+   - the names it extends / implements, and the names bounding its type parameters, see g only;
+   - the rest of its header (type arguments of the bounds and of the extended types, field / variant types) sees its type parameters;
+   - methods see `this` and the type parameters, functions see neither *)
+Definition lex_toplevel (this : N) (g : list (N * N)) (t : toplevel) : list res :=
+  let g1 := bind (tparam_binders (tl_tparams t)) g in
+  map (fun n : N * N * annots => (fst (fst n), snd (fst n), true, find_frame (fst (fst n)) g)) (tl_ext t) ++
+  (lex_tparams g (tl_tparams t) ++
+   flat_map (fun n : N * N * annots => lex_annots g1 (snd n)) (tl_ext t) ++
+   match tl_def t with Some d => lex_typedef g1 d | None => [] end) ++
+  flat_map (fun m => if Bool.eqb (mb_method m) true then lex_member (bind (instance_binders this t) g) m else []) (tl_members t) ++
+  flat_map (fun m => if Bool.eqb (mb_method m) false then lex_member g m else []) (tl_members t).
+
+Definition module_binders (m : module) : list (N * N) :=
+  md_imports m ++ map (fun t => (tl_x t, tl_l t)) (md_tops m).
+
+Definition lex_module (this : N) (m : module) : list res :=
+  flat_map (lex_toplevel this (bind (module_binders m) [])) (md_tops m).
